@@ -3,7 +3,8 @@
 One Scenario = one instance. Stimuli (macro-steps, each followed by quiescence at the same
 virtual instant) are exactly the events of spec/Svs.tla:
 
-  recv(p, j)     a sync Interest (real, signed, built here) carrying packet p is handed to the
+  recv(p, j, r)  (r = number of new_data() calls the application makes inside on_missing_data)
+                 a sync Interest (real, signed, built here) carrying packet p is handed to the
                  application's receive callback, *before* any timer that is due at this instant
   publish(n, j)  n calls of new_data() in one loop turn
   fire(j)        the timers due at this instant run (only legal when timer() == 0)
@@ -151,6 +152,8 @@ class Scenario:
         self.r = j0 * rstep
         self.sup_ticks, self.sync_ticks = sup_ticks, sync_ticks
         self.missing_calls = 0
+        self.react = 0
+        self.published = False
         self.seen = 0
         self.sess = Session()
         self.sess.__enter__()
@@ -172,7 +175,11 @@ class Scenario:
             raise
 
     def _on_missing(self, inst):
+        # the application's reaction inside the (non-blocking) callback: self.react publications
         self.missing_calls += 1
+        for _ in range(self.react):
+            inst.new_data()
+            self.published = True
 
     def close(self):
         try:
@@ -222,11 +229,18 @@ class Scenario:
         return [str(c.get('exception') or c.get('message')) for c in self.sess.loop.errors]
 
     # ---- stimuli
-    def recv(self, p, j=0):
+    def recv(self, p, j=0, react=0):
         self.r = j * self.rstep
-        exc = deliver(self.sess, self.face, sync_interest(p), timers_now=False)
+        self.react, self.published = react, False
+        try:
+            exc = deliver(self.sess, self.face, sync_interest(p), timers_now=False)
+        finally:
+            self.react = 0
         if exc is not None:
             raise MachineryError('receive callback raised %r' % exc)
+        if self.published:
+            # as in publish(): whatever is due now was scheduled by the publication itself
+            self.sess.loop.settle(timers_now=True)
         return self.post()
 
     def publish(self, n=1, j=0):
@@ -253,7 +267,7 @@ class Scenario:
     def apply(self, ev):
         a = ev['a']
         if a == 'RecvSV':
-            return self.recv(ev['p'], ev.get('j', 0))
+            return self.recv(ev['p'], ev.get('j', 0), ev.get('r', 0))
         if a == 'Publish':
             return self.publish(ev['n'], ev.get('j', 0))
         if a == 'TimerFire':
